@@ -144,7 +144,11 @@ def generateMapInputs (values : AL Val) (mapOver : List Name) (mode : MapMode) :
 def renameOutputs (nd : NodeD) (vals : AL Val) : AL Val :=
   vals.foldl (fun acc kv => AL.put acc ((AL.get? nd.origOut kv.1).getD kv.1) kv.2) []
 
-/-- `collect_as_lists` (after the repair: `None` for an output an item did not produce) -/
+/-- the names `collect_as_lists` collects: every declared output of the wrapper that is not an ordering signal only
+(repair "signals are not collected by a mapping node": they were returned as lists of `None` placeholders) -/
+def collectNames (nd : NodeD) : List Name := nd.outputs.filter fun o => !nd.signalOuts.contains o
+
+/-- `collect_as_lists` (after the repairs: `None` for an output an item did not produce; ordering signals are not collected) -/
 def collectAsLists (nd : NodeD) (results : List RunOut) : Except ErrId (AL Val) :=
   let rec go : List RunOut → AL (List Val) → Except ErrId (AL (List Val))
     | [], acc => .ok acc
@@ -156,7 +160,7 @@ def collectAsLists (nd : NodeD) (results : List RunOut) : Except ErrId (AL Val) 
       else
         let rv := renameOutputs nd r.values
         go rs (acc.map fun kv => (kv.1, kv.2 ++ [(AL.get? rv kv.1).getD .none]))
-  match go results (nd.outputs.map fun o => (o, [])) with
+  match go results ((collectNames nd).map fun o => (o, [])) with
   | .ok acc => .ok (acc.map fun kv => (kv.1, Val.mkLst kv.2))
   | .error e => .error e
 
